@@ -100,6 +100,23 @@ func printSummary(res *ExploreResult, verbose bool) {
 	}
 	fmt.Printf("harness %s: %d paths in %.1fs; outcomes=%v obligations=%v reach=%v\n", res.Cfg.Name, len(res.Paths), res.WallS, out, oblig, reach)
 	fmt.Printf("  solver: queries=%d sat=%d unsat=%d unknown=%d err=%d time=%.1fs\n", gQueries, gSat, gUnsat, gUnknown, gSolverErr, float64(gSolverNs)/1e9)
+	if forkStat != nil {
+		type kv struct {
+			k string
+			v int
+		}
+		var l []kv
+		for k, v := range forkStat {
+			l = append(l, kv{k, v})
+		}
+		sort.Slice(l, func(i, j int) bool { return l[i].v > l[j].v })
+		for i, e := range l {
+			if i > 15 {
+				break
+			}
+			fmt.Printf("  forks %6d  %s\n", e.v, e.k)
+		}
+	}
 	keys := []string{}
 	for k := range viol {
 		keys = append(keys, k)
